@@ -2,7 +2,11 @@
 
 package engines
 
-import "sort"
+import (
+	"sort"
+	"syscall"
+	"time"
+)
 
 func sortStrings(s []string) { sort.Strings(s) }
 
@@ -18,4 +22,15 @@ func min(a, b int) int {
 		return a
 	}
 	return b
+}
+
+// procCPU returns the CPU time (user + system) the worker process has used so far.  The time limits
+// of the K6 oracles are measured with it rather than with the wall clock, which a loaded machine
+// stretches at will.
+func procCPU() time.Duration {
+	var ru syscall.Rusage
+	if err := syscall.Getrusage(syscall.RUSAGE_SELF, &ru); err != nil {
+		return 0
+	}
+	return time.Duration(ru.Utime.Nano() + ru.Stime.Nano())
 }
